@@ -120,6 +120,21 @@ def _project_and_observe(job, t, sib, mats, stamps, plane, ax, u):
         o["second"] = "ok"
     except Exception as e:  # noqa: BLE001
         o["second"] = type(e).__name__
+    if job.get("seed", 0) % 4 == 0 and n >= 1:
+        # evo_ape's library entry with this projected object as the reference and a fresh 3-D estimate
+        from evo import main_ape
+        from evo.core.metrics import PoseRelation
+        from evo.core.trajectory import PosePath3D, PoseTrajectory3D
+        off = np.eye(4)
+        off[:3, 3] = [0.5, -0.25, 2.0]
+        est_poses = [off @ geom.se3(m, u * np.array(p["p"], dtype=float)) for m, p in zip(mats, job["poses"])]
+        est = PoseTrajectory3D(poses_se3=est_poses, timestamps=stamps.copy()) if job["kind"] == "traj" else PosePath3D(poses_se3=est_poses)
+        try:
+            res = main_ape.ape(t, est, PoseRelation.translation_part, project_to_plane=trajectory.Plane(plane))
+            used = res.trajectories.get("estimate", est)
+            o["ape2"] = "planar" if all(abs(float(q[ax, 3])) < 1e-12 for q in used.poses_se3) else "nonplanar"
+        except Exception:  # noqa: BLE001
+            o["ape2"] = "refused"
     return o
 
 
